@@ -2996,3 +2996,38 @@ func checkSingleFileNameAsGiven(c *Ctx, rule string) {
 			"unpackDataFile rewrites the requested name (`"+v.Name()+" = "+bad+"`) before looking it up among the bundle's entries, whose names are compared as stored: a file listed by the bundle under a spelling the rewrite changes can no longer be downloaded on its own")
 	}
 }
+
+func init() {
+	addWitness(witness{Prop: "C04", Name: "upload-slot-taken-twice-for-one-file", File: "pkg/core/bundle_pack.go",
+		Old:    "\t\tconcurrencyControl <- struct{}{}\n\t\tbundle.l.Debug(\"kicking off upload file\",\n",
+		New:    "\t\tconcurrencyControl <- struct{}{}\n\t\tconcurrencyControl <- struct{}{}\n\t\tbundle.l.Debug(\"kicking off upload file\",\n",
+		Expect: "slot-not-leaked"})
+	addWitness(witness{Prop: "C11", Name: "metadata-read-through-a-wrapper", File: "pkg/core/meta_object.go",
+		Old:    "\treturn ioutil.ReadAll(rdr)\n",
+		New:    "\treturn ioutil.ReadAll(ioutil.NopCloser(rdr))\n",
+		Expect: "metadata-read-whole"})
+	addWitness(witness{Prop: "C04", Name: "requested-file-name-rewritten", File: "pkg/core/bundle_unpack.go",
+		Old:    "\tbundle.l.Info(\"downloading bundle file\",\n",
+		New:    "\tfile = \"\" + file\n\tbundle.l.Info(\"downloading bundle file\",\n",
+		Expect: "single-file-name-as-given"})
+	addWitness(witness{Prop: "C17", Name: "forget-drops-the-directory-table", File: "pkg/fuse/fs_ro_ops.go",
+		Old:    "\top *fuseops.ForgetInodeOp) (err error) {\n\tt0 := fs.opStart(op)\n\tdefer fs.opEnd(t0, op, err)\n\treturn\n",
+		New:    "\top *fuseops.ForgetInodeOp) (err error) {\n\tt0 := fs.opStart(op)\n\tdefer fs.opEnd(t0, op, err)\n\tdelete(fs.readDirMap, op.Inode)\n\treturn\n",
+		Expect: "read-only-stores-frozen"})
+	addWitness(witness{Prop: "C19", Name: "read-pool-sized-from-the-options", File: "pkg/wal/wal.go",
+		Old:    "\twal.connectionControl = make(chan struct{}, maxConcurrency)\n",
+		New:    "\twal.connectionControl = make(chan struct{}, len(options))\n",
+		Expect: "wal-pool-sized"})
+	addWitness(witness{Prop: "C22", Name: "tracker-keeps-package-level-state", File: "pkg/filetracker/file_tracker.go",
+		Old:    "func getKey(key int64) []byte {\n\tif key < 0 {\n",
+		New:    "var lastKey int64\n\nfunc getKey(key int64) []byte {\n\tlastKey = key\n\tif key < 0 {\n",
+		Expect: "tracker-keys-fresh"})
+	addWitness(witness{Prop: "C21", Name: "database-strings-keyed-by-a-mapped-name", File: "pkg/sidecar/param/params.go",
+		Old:    "\t\trv[dbParams.Name] = dbString\n",
+		New:    "\t\trv[strings.ToLower(dbParams.Name)] = dbString\n",
+		Expect: "entry-strings-keyed-by-name"})
+	addWitness(witness{Prop: "C07", Name: "empty-key-page-skipped-before-its-error", File: "pkg/core/bundle_list.go",
+		Old:    "\t\t\tif keyBatch.err != nil {\n\t\t\t\tbatchChan <- bundlesEvent{err: keyBatch.err}\n",
+		New:    "\t\t\tif len(keyBatch.keys) == 0 {\n\t\t\t\tcontinue\n\t\t\t}\n\t\t\tif keyBatch.err != nil {\n\t\t\t\tbatchChan <- bundlesEvent{err: keyBatch.err}\n",
+		Expect: "fetchers-test-error-first"})
+}
